@@ -13,6 +13,6 @@ def run_parts(ck, pid, level_both, level_R_only, explanation):
             continue
         getattr(mod, fn)(ck)
         parts.append(suffix)
-    has_P = any(o['kind'] == 'P' for o in ck.obligations)
+    has_P = len(ck.obligations) > 0     # P or S obligations generated from the real AST
     ck.note('parts run: ' + ','.join(parts))
     return ck.finish(level_both if has_P else level_R_only, explanation)
